@@ -384,7 +384,7 @@ func (fx *FuncExec) runBody() {
 			if call, ok := r.Expr.(*ast.CallExpr); ok {
 				if id, ok := call.Fun.(*ast.Ident); ok && id.Name == "held" {
 					l := fx.evalLoc(env, call.Args[0])
-					key := fx.locString(l)
+					key := fx.canonKey(fx.locString(l))
 					st.locks[key] = "true"
 					fx.heldOnEntry[key] = true
 					continue
